@@ -25,24 +25,21 @@ func (h UserDataHeader) Len() (length int) {
 func (h *UserDataHeader) ReadFrom(r io.Reader) (n int64, err error) {
 	buf := bufio.NewReader(r)
 	header := make(UserDataHeader)
-	length, err := buf.ReadByte()
+	total, err := buf.ReadByte()
 	if err != nil {
 		return
 	}
-	var id byte
-	var data []byte
-	for i := 0; i < int(length); {
+	var id, length byte
+	for i := 0; i < int(total) && err == nil; i += 2 + int(length) {
 		if id, err = buf.ReadByte(); err == nil {
 			length, err = buf.ReadByte()
 		}
-		if length > 0 {
-			data = make([]byte, length)
-			_, err = buf.Read(data)
-		}
 		if err == nil {
-			header[id] = data
+			data := make([]byte, length)
+			if _, err = io.ReadFull(buf, data); err == nil {
+				header[id] = data
+			}
 		}
-		i = buf.Size()
 	}
 	if len(header) > 0 {
 		*h = header
